@@ -67,15 +67,25 @@ class NGen(TGen):
             return f"({self.e_str(d-1)} ~ {self.e_any(d-1)})"
         if k < 0.85:
             return f"({self.e_str(d-1)})|{r.choice(['lower', 'string'])}"
-        if k < 0.9:
+        if k < 0.89:
             lst = self.e_hlist() if r.random() < 0.6 else "(" + self.e_list(d-1) + ")"
             j = r.random()
             sep = self.lit_str() if j < 0.5 else (r.choice(self.names) + "|string" if j < 0.8 or not self.macros else self.macro_call())
             return f"{lst}|join({sep})"
+        if k < 0.95:
+            # filters invoked THROUGH other filters over lists that hold rendered fragments
+            h = self.e_hlist()
+            return r.choice([f"{h}|map('string')|join({self.lit_str()})", f"{h}|map('lower')|join",
+                             f"[{h}, {self.e_hlist()}]|map('join', {self.lit_str()})|join({self.lit_str()})",
+                             f"[{h}]|map('join')|join", f"{h}|select('string')|join({r.choice(self.names)}|string)",
+                             f"{h}|map('default', {self.lit_str()}, true)|join"])
         if k < 0.97 and self.macros:
             # str.format / format_map with a rendered fragment as the PATTERN (Markup.format escapes the arguments:
             # neutral by MarkupSafe's contract; also the sandbox's wrapped format)
-            if r.random() < 0.5:
+            j = r.random()
+            if j < 0.25:
+                return f"(({self.macro_call()})|string ~ '[{{0:s}}|{{1!s}}|{{0:3}}]').format({r.choice(self.names)}|string, {r.choice(self.names)}|string)"
+            if j < 0.5:
                 return f"(({self.macro_call()})|string ~ '[{{}}|{{}}]').format({self.e_any(0)}, {r.choice(self.names)}|string)"
             return f"(({self.macro_call()})|string ~ '[{{k}}]').format_map({{'k': {r.choice(self.names)}|string}})"
         return f"({self.e_str(d-1)} if {self.e_cond(d-1)} else {self.e_str(d-1)})"
@@ -153,6 +163,10 @@ EXTRA_SETS = [
      lambda g: {"a": g.word()}),
     ({"main.html": "{% macro m(p) %}<{{ p }}>{% endmacro %}{% set s %}{{ a }}:{% endset %}{{ (m(a) ~ '{}|{k}').format(a, k=b) }}{{ (s ~ '{k}').format_map({'k': a}) }}"
                    "{{ [m(a), m(b), a]|join(s) }}{{ [a, m(a)]|join(m(b)) }}"},
+     lambda g: {"a": g.word(), "b": g.word()}),
+    ({"main.html": "{% macro m(p) %}<{{ p }}>{% endmacro %}{% set s %}{{ a }}{% endset %}{{ [[m(a), b], [s, m(b)]]|map('join', ', ')|join('; ') }}"
+                   "{{ [m(a), s, b]|map('string')|join('-') }}{{ [m(a), b]|select('string')|join(s) }}{{ [[s, a]]|map('join')|first }}"
+                   "{{ [m(b), a]|map('default', 'd', true)|map('lower')|join }}"},
      lambda g: {"a": g.word(), "b": g.word()}),
     ({"main.html": "{% include 'inc.html' %}{% set x %}{% include 'inc.html' %}{% endset %}{{ x }}{{ x ~ a }}",
       "inc.html": "{{ a }}{% set y %}{{ a }}{% endset %}{{ y }}"},
@@ -433,6 +447,12 @@ def judge_T(jinja2, t, d, dl, src, ctx=None):
     """the property on the real engine for one T program inside the hypotheses"""
     on = L.real_render(jinja2, True, True, t, d, dl, src)
     off = L.real_render(jinja2, False, False, t, d, dl, src)
+    if t and len(t) == 1 and t[0][0] == "E" and t[0][1] == "f":
+        # the whole program is inside {% autoescape flag %}: "on" decided at RUN TIME over a default-off
+        # environment (volatile code paths only) must give the same text as the static "on"
+        rt_on = L.real_render(jinja2, False, True, t, d, dl, src)
+        if rt_on != on:
+            return (f"runtime-decided autoescape (default off, flag true) renders {rt_on!r}, statically on renders {on!r}")
     return judge_pair(on, off, ctx, ("ot", src, repr(d), repr(dl)),
                       {"oracle": "O-T", "source": src, "data": {f"n{k}": v for k, v in d.items()}},
                       nontrivial_T(t), "o_T")
@@ -541,7 +561,7 @@ def vary(rng, data):
     return make
 
 
-SET_AXES = ("plain", "plain", "sandbox", "immutable_sandbox", "async", "unoptimized")
+SET_AXES = ("plain", "selector", "sandbox", "selector_sandbox", "immutable_sandbox", "async", "selector_async", "unoptimized")
 
 
 def render_set(jinja2, ts, main, data, autoescape, axis="plain"):
@@ -549,14 +569,19 @@ def render_set(jinja2, ts, main, data, autoescape, axis="plain"):
     try:
         from jinja2 import sandbox
         cls, kw = jinja2.Environment, {}
-        if axis == "sandbox":
+        sel = axis.startswith("selector")
+        base_axis = (axis[len("selector"):].lstrip("_") or "plain") if sel else axis
+        if base_axis == "sandbox":
             cls = sandbox.SandboxedEnvironment
-        elif axis == "immutable_sandbox":
+        elif base_axis == "immutable_sandbox":
             cls = sandbox.ImmutableSandboxedEnvironment
-        elif axis == "async":
+        elif base_axis == "async":
             kw["enable_async"] = True
-        elif axis == "unoptimized":
+        elif base_axis == "unoptimized":
             kw["optimized"] = False
+        if autoescape is True and sel:
+            # the same "on" through a name-based selector (off for a missing name): every template is *.html
+            autoescape = jinja2.select_autoescape(("html",), default_for_string=False, default=False)
         env = cls(loader=jinja2.DictLoader(ts), autoescape=autoescape, **kw)
         return env.get_template(main).render(**data)
     except Exception:
